@@ -203,7 +203,7 @@ pub fn behaviour() -> Behaviour {
         cfg,
         adjust,
         render,
-        quick: 1500,
+        quick: 4000,
         thorough: 20000,
         batch: 25,
         assumptions: &["generation counters are excluded from 'indistinguishable' because clone_from may legitimately reuse storage"],
